@@ -307,6 +307,7 @@ def units(tier, seed):
             us.append({'kind': 'alltuples', 'op': opn, 'D': D, 'tier': tier, 'seed': seed})
     for kk in ['int', 'float', 'np.int64', 'np.float64', 'np.float32']:
         us.append({'kind': 'pow', 'ekind': kk, 'tier': tier, 'seed': seed})
+    us.append({'kind': 'rpow', 'tier': tier, 'seed': seed})
     us.append({'kind': 'alias', 'tier': tier, 'seed': seed})
     us.append({'kind': 'alias_binary', 'tier': tier, 'seed': seed})
     us.append({'kind': 'highD', 'tier': tier, 'seed': seed})
@@ -389,6 +390,51 @@ def run_pow(u, out):
                         bad = np.argwhere(~(err <= tol))[0]
                         out['fails'].append({'sig': 'C02|pow|%s|k=%d|value|%s' % (ek, k, 'complex' if cplx else 'real'), 'case': case,
                                              'detail': {'index': [int(i) for i in bad], 'got': complex(res.data[tuple(bad)]), 'expected': complex(ref[tuple(bad)])}})
+
+
+def run_rpow(u, out):
+    """scalar ** polynomial for every scalar kind: against the defining series exp(x log r) evaluated with exact rational
+    polynomial arithmetic in x and 30 terms of the exponential series (log r in double precision, like the library), and
+    the identity r**x * r**(-x) = 1"""
+    import math
+    from fractions import Fraction
+    bases = [('int 2', 2), ('float 0.5', 0.5), ('float 3.0', 3.0), ('np.float64 1.5', np.float64(1.5)), ('int 10', 10), ('np.int64 3', np.int64(3))]
+    for bn, r in bases:
+        lr = Fraction(math.log(float(r)))
+        for (D, P) in DPS[u['tier']] + [(6, 1)]:
+            for shape in [(), (2,), (2, 3)]:
+                x = fill_utpm(D, P, shape, False, 'dense', D + 1, False) * 0.5
+                case = {'kind': 'rpow', 'base': bn, 'D': D, 'P': P, 'shape': list(shape), 'tier': u['tier']}
+                out['evals'] += 1
+                out['nontrivial'] += 1 if D > 2 else 0
+                try:
+                    res = (r ** UTPM(x.copy())).data
+                    inv = (r ** UTPM(-x.copy())).data
+                except Exception as e:
+                    out['fails'].append({'sig': 'C02|rpow|%s|raises' % bn, 'case': case, 'detail': {'error': str(e)[:200]}})
+                    continue
+                a = QS.from_utpm_data(x)                       # list of D exact coefficient arrays
+                z = [c * lr for c in a]                          # z = x log r
+                # exp(z) = exp(z_0) * exp(z - z_0): the second factor is a polynomial identity in the nilpotent part
+                nil = [z[0] * 0] + z[1:]
+                term = [z[0] * 0 + 1] + [z[0] * 0 for _ in range(D - 1)]
+                tot = [t for t in term]
+                for k in range(1, D + 1):
+                    term = [t / k for t in QS.s_mul(term, nil)]
+                    tot = [p_ + q_ for p_, q_ in zip(tot, term)]
+                e0 = np.exp(np.array(QS.stack([z[0]]), dtype=float)[0])
+                ref = np.array(QS.stack(tot), dtype=float) * e0
+                if res.shape != ref.shape:
+                    out['fails'].append({'sig': 'C02|rpow|%s|shape' % bn, 'case': case, 'detail': {'got': list(res.shape)}})
+                    continue
+                err = np.abs(res - ref) / (np.abs(ref) + np.abs(e0) * 1.0)
+                one = UTPM(res) * UTPM(inv)
+                id_err = np.abs(one.data - np.concatenate([np.ones((1,) + one.data.shape[1:]), np.zeros((D - 1,) + one.data.shape[1:])]))
+                if not np.all(err <= 1e-12):
+                    d = int(np.argmax(err.reshape(D, -1).max(axis=1) > 1e-12))
+                    out['fails'].append({'sig': 'C02|rpow|%s|value|first_bad_order=%d' % (bn, d), 'case': case, 'detail': {'max_scaled_error': float(err.max())}})
+                elif not np.all(id_err <= 1e-11 * (1 + np.abs(res).max() * np.abs(inv).max())):
+                    out['fails'].append({'sig': 'C02|rpow|%s|r**x * r**(-x) != 1' % bn, 'case': case, 'detail': {'max_error': float(id_err.max())}})
 
 
 ALIAS_FORMS = ['same', 'reversed', 'transposed', 'overlap', 'row0', 'element']
@@ -509,6 +555,9 @@ def run_unit(u):
     if u['kind'] == 'alltuples':
         run_alltuples(u, out)
         return out
+    if u['kind'] == 'rpow':
+        run_rpow(u, out)
+        return out
     if u['kind'] == 'pow':
         run_pow(u, out)
         return out
@@ -534,6 +583,9 @@ def replay(case):
     if case.get('kind') == 'alltuples':
         run_alltuples(case, out)
         return out['fails']
+    if case.get('kind') == 'rpow':
+        run_rpow({'tier': case.get('tier', 'quick')}, out)
+        return [f for f in out['fails'] if all(f['case'].get(k) == case.get(k) for k in ('base', 'D', 'P', 'shape'))]
     if case.get('kind') == 'pow':
         run_pow({'ekind': case['ekind'], 'tier': case.get('tier', 'quick')}, out)
         return [f for f in out['fails'] if f['case']['k'] == case['k'] and f['case']['D'] == case['D'] and f['case']['P'] == case['P']
